@@ -1,7 +1,7 @@
 """expression evaluation and builtin semantics for the abstract interpreter"""
 import ast
 
-from .program import ClassInfo, ExtClass, FuncInfo
+from .program import ClassInfo, ExtClass, FuncInfo, Inconclusive
 from .values import (V, Const, Sym, CRef, FRef, MRef, ERef, BRef, Bound,
                      BoundB, Obj, Tup, App, New, Coll, Part, Raise, walk)
 
@@ -1125,6 +1125,13 @@ class BuiltinsMixin(object):
                         a2[i] = a.args[1] if tr else a.args[2]
                         out.extend(self.call_value(fv, a2, kw, q, node))
                     return out
+        # (f if c else g)(..): decided first, then the chosen one is called
+        if isinstance(fv, App) and fv.op == 'ite' and len(fv.args) == 3:
+            out = []
+            for (q, tr) in self.branch(fv.args[0], path):
+                out.extend(self.call_value(fv.args[1] if tr else fv.args[2],
+                                           args, kw, q, node))
+            return out
         # operator.methodcaller(name, *a)(obj) is obj.name(*a);
         # operator.attrgetter(name)(obj) is obj.name
         if isinstance(fv, App) and fv.op == 'global' and len(fv.args) == 3 \
@@ -1231,6 +1238,27 @@ class BuiltinsMixin(object):
             return self._synthetic_comp(
                 '[__ch_x for __ch_xs in __ch_xss for __ch_x in __ch_xs]',
                 {'__ch_xss': xss}, path, node)
+        if isinstance(fv, App) and fv.op == 'attr' and \
+                isinstance(fv.args[0], CRef) and \
+                fv.args[1] == Const('fromkeys'):
+            fv = BoundB(fv.args[0], 'fromkeys')
+        if isinstance(fv, BoundB) and isinstance(fv.recv, CRef) and \
+                getattr(fv.recv.ci, 'name', None) == 'dict' and \
+                fv.name == 'fromkeys' and len(args) in (1, 2) and not kw:
+            # dict.fromkeys(KS, v): every key of KS mapped to the *same* v
+            o = path.alloc('dict', site=node)
+            val = args[1] if len(args) == 2 else Const(None)
+            items = self.concrete_iter(args[0], path)
+            h = path.heap[o.oid]
+            if items is not None:
+                for k in items:
+                    h.parts.append(Part('elem', val, key=k))
+            else:
+                src = self.snapshot_deep(args[0], path)
+                var = path.fresh('e', None, meta=('elem', src))
+                h.parts.append(Part('elem', val, key=var,
+                                    gens=[(var, src)]))
+            return [(path, o)]
         if isinstance(fv, ERef) and fv.name == 'itertools.product' and \
                 not kw and len(args) in (2, 3):
             # product(a, b) is ((x, y) for x in a for y in b)
@@ -1363,9 +1391,22 @@ class BuiltinsMixin(object):
                 its = self.snapshot(it, p)
                 var = p.fresh('e', et, meta=('elem', its))
                 self.assign(g.target, var, fr, p, g.target)
-                res.extend(self._comp_filtered(
-                    g, gens, i, fr, p, out, elt, key, g_acc + ((var, its),),
-                    c_acc))
+                base0 = len(p.pc)
+                for (q, sg) in self._comp_filtered(
+                        g, gens, i, fr, p, out, elt, key,
+                        g_acc + ((var, its),), c_acc):
+                    if isinstance(sg, Raise) and len(q.pc) > base0 and \
+                            any(any(x == var for x in walk(c))
+                                for (c, _) in q.pc[base0:]):
+                        # raised while handling *some* element: what was
+                        # assumed about that element is existential
+                        delta = [(self.snapshot_deep(c, q), pol)
+                                 for (c, pol) in q.pc[base0:]]
+                        del q.pc[base0:]
+                        q.pc.append((App('exists', var, its, Tup(
+                            Tup((c, Const(pol))) for (c, pol) in delta)),
+                            True))
+                    res.append((q, sg))
         return res
 
     def _comp_ifs(self, ifs, k, fr, q, conds, base):
@@ -1641,19 +1682,26 @@ class BuiltinsMixin(object):
                acc = init
                for x in xs: acc = f(acc, x)
         interpreted as that loop (so that it gets the same summary)"""
-        if len(args) == 2:
-            self.inconclusive('reduce without an initial value', node)
         fr = self.stack_frame_for_synthetic(path)
         h = path.heap[fr]
-        h.vars['__red_f'], h.vars['__red_xs'], h.vars['__red_acc'] = args
-        loop = ast.parse('for __red_x in __red_xs:\n'
-                         '    __red_acc = __red_f(__red_acc, __red_x)'
-                         ).body[0]
-        ast.copy_location(loop, node)
-        for n in ast.walk(loop):
-            ast.copy_location(n, node)
+        if len(args) == 2:
+            # no initial value: the first member starts the fold
+            #     it = iter(xs); acc = next(it); for x in it: acc = f(acc, x)
+            h.vars['__red_f'], h.vars['__red_xs'] = args
+            src = ('__red_it = iter(__red_xs)\n'
+                   '__red_acc = next(__red_it)\n'
+                   'for __red_x in __red_it:\n'
+                   '    __red_acc = __red_f(__red_acc, __red_x)')
+        else:
+            h.vars['__red_f'], h.vars['__red_xs'], h.vars['__red_acc'] = args
+            src = ('for __red_x in __red_xs:\n'
+                   '    __red_acc = __red_f(__red_acc, __red_x)')
+        stmts = ast.parse(src).body
+        for st in stmts:
+            for n in ast.walk(st):
+                ast.copy_location(n, node)
         out = []
-        for (q, sig) in self.exec_stmt(loop, fr, path):
+        for (q, sig) in self.exec_block(stmts, fr, path):
             if isinstance(sig, Raise):
                 out.append((q, sig))
             else:
@@ -1739,6 +1787,8 @@ class BuiltinsMixin(object):
         kwd = dict(kw)
         if 'key' not in kwd:
             self.obs('sort', (args[0],), path, node)
+        else:
+            self._obs_sort_keys(args[0], kwd['key'], path, node)
         self.event(path, 'sorted', args[0], None,
                    (kwd.get('key', Const(None)),), node)
         for (q, v) in res:
@@ -1804,10 +1854,33 @@ class BuiltinsMixin(object):
         return [(path, App('range', *args))]
 
     def bi_iter(self, args, kw, path, node):
+        src = args[0] if args else None
+        ordered = isinstance(src, Tup) or (
+            isinstance(src, Coll) and src.kind == 'list') or (
+            isinstance(src, Obj) and path.heap[src.oid].kind == 'list')
+        items = self.concrete_iter(src, path) if ordered and len(args) == 1 \
+            else None
+        if items is not None:
+            # an iterator over a sequence whose members are all known:
+            # next() takes them in order, a loop takes what is left
+            o = path.alloc('iterator', site=node)
+            h = path.heap[o.oid]
+            h.fields = {'$items': Tup(items), '$pos': Const(0)}
+            return [(path, o)]
         return [(path, App('iter', self.snapshot(args[0], path)))]
 
     def bi_next(self, args, kw, path, node):
         it = args[0]
+        if isinstance(it, Obj) and path.heap[it.oid].kind == 'iterator' and \
+                len(args) in (1, 2) and not kw:
+            h = path.heap[it.oid]
+            items, pos = h.fields['$items'].items, h.fields['$pos'].v
+            if pos < len(items):
+                h.fields['$pos'] = Const(pos + 1)
+                return [(path, items[pos])]
+            if len(args) == 2:
+                return [(path, args[1])]
+            return [(path, Raise(New(ExtClass('StopIteration'), ()), node))]
         if isinstance(it, Obj) and path.heap[it.oid].kind == 'list' and \
                 len(args) in (1, 2):
             h = path.heap[it.oid]
@@ -1873,14 +1946,34 @@ class BuiltinsMixin(object):
             return [(path, CRef(ci))]
         return [(path, App('type', args[0]))]
 
+    def _obs_sort_keys(self, xs, key, path, node):
+        """sorted(xs, key=k) orders the values k(x): they are what is
+        compared (observed like the operands of a sort without key)"""
+        if getattr(self, 'observer', None) is None or key == Const(None):
+            return
+        try:
+            q = path.fork()
+            res = self._synthetic_comp(
+                '[__sk_f(__sk_x) for __sk_x in __sk_xs]',
+                {'__sk_f': key, '__sk_xs': xs}, q, node)
+            for (q2, v) in res:
+                if not isinstance(v, Raise):
+                    self.obs('sort', (self.snapshot(v, q2),), q2, node)
+        except Inconclusive:
+            pass
+
     def bi_min(self, args, kw, path, node):
         if 'key' not in dict(kw):
             self.obs('sort', tuple(args), path, node)
+        elif len(args) == 1:
+            self._obs_sort_keys(args[0], dict(kw)['key'], path, node)
         return [(path, App('min', *[self.snapshot(a, path) for a in args]))]
 
     def bi_max(self, args, kw, path, node):
         if 'key' not in dict(kw):
             self.obs('sort', tuple(args), path, node)
+        elif len(args) == 1:
+            self._obs_sort_keys(args[0], dict(kw)['key'], path, node)
         if all(isinstance(a, Const) for a in args) and len(args) > 1:
             return [(path, Const(max(a.v for a in args)))]
         return [(path, App('max', *[self.snapshot(a, path) for a in args]))]
@@ -1991,6 +2084,9 @@ class BuiltinsMixin(object):
             self.event(path, 'mcall', recv, name, sargs, node)
         if name in ('keys', 'values', 'items'):
             return [(path, App('dictview', Const(name), recv))]
+        if name == 'get' and len(args) in (1, 2) and \
+                isinstance(recv, (Sym, App)):
+            return [(path, App('dictget', recv, *args))]
         if name == '__iter__':
             return [(path, App('iter', recv))]
         if name == 'format' and self.is_strlike(recv):
